@@ -17,21 +17,22 @@ type Share struct {
 }
 
 type CycleRec struct {
-	Before    string // canonical state the session was built from
-	Calls     []Call
-	After     string
-	Evictions int
-	Shares    []Share
-	Panic     string
+	Before     string // canonical state the session was built from
+	Calls      []Call
+	After      string
+	Evictions  int
+	Shares     []Share
+	Panic      string
 	Complaints int
 	Sizes      []SizeObs // gate size vs charged size of every job placed in the cycle (world.go RunActions)
 	Partial    int       // jobs of which only some of the pods the scheduler meant to place next were placed
+	Sats       []SatObs  // the saturation rule on every committed reclaim eviction (satgate.go)
 }
 
 type Trace struct {
-	Cycles     []CycleRec
-	LassoFrom  int // index i of the earlier state (state before cycle i), -1 = none
-	LassoTo    int // state after cycle LassoTo equals state before cycle LassoFrom
+	Cycles         []CycleRec
+	LassoFrom      int // index i of the earlier state (state before cycle i), -1 = none
+	LassoTo        int // state after cycle LassoTo equals state before cycle LassoFrom
 	EvictingCycles int
 }
 
@@ -54,6 +55,7 @@ func Run(w *World, maxCycles int) *Trace {
 		rec.Calls = b.Rec.calls
 		rec.Complaints = len(b.Rep.msgs)
 		rec.Sizes, rec.Partial = b.Sizes, b.PartialPlacements
+		rec.Sats = satObservations(w, b, rec.Calls)
 		rec.Evictions = w.Apply(rec.Calls)
 		rec.After = w.Canon()
 		totalEv += rec.Evictions
@@ -218,6 +220,9 @@ func (tr *Trace) Dump() string {
 		fmt.Fprintf(&sb, "           decisions: %s\n", callsDesc(c.Calls))
 		if len(c.Sizes) > 0 {
 			fmt.Fprintf(&sb, "           sizes: %s\n", sizesDesc(c.Sizes))
+		}
+		for _, o := range c.Sats {
+			fmt.Fprintf(&sb, "           saturation: %s\n", o)
 		}
 		if c.Panic != "" {
 			fmt.Fprintf(&sb, "           PANIC %s\n", strings.SplitN(c.Panic, "\n", 2)[0])
